@@ -56,7 +56,7 @@ func (w *World) valueWalkOf(ev *ssa.Function) *valueWalk {
 	for len(stack) > 0 {
 		f := stack[len(stack)-1]
 		stack = stack[:len(stack)-1]
-		for _, c := range w.staticPkgCallees(f) {
+		for _, c := range w.walkPkgCallees(f) {
 			if !fwd[c] {
 				fwd[c] = true
 				stack = append(stack, c)
@@ -71,7 +71,7 @@ func (w *World) valueWalkOf(ev *ssa.Function) *valueWalk {
 			if in[f] {
 				continue
 			}
-			for _, c := range w.staticPkgCallees(f) {
+			for _, c := range w.walkPkgCallees(f) {
 				if in[c] {
 					in[f] = true
 					changed = true
@@ -94,7 +94,7 @@ func (w *World) valueWalkOf(ev *ssa.Function) *valueWalk {
 	var visit func(f *ssa.Function)
 	visit = func(f *ssa.Function) {
 		state[f] = 1
-		for _, c := range w.staticPkgCallees(f) {
+		for _, c := range w.walkPkgCallees(f) {
 			if c == ev || !in[c] {
 				continue
 			}
@@ -128,7 +128,7 @@ func (vw *valueWalk) walkCallsIn(b *ssa.BasicBlock) []*ssa.Call {
 	var out []*ssa.Call
 	for _, in := range b.Instrs {
 		if c, ok := in.(*ssa.Call); ok {
-			if sc := c.Call.StaticCallee(); sc != nil && vw.in[sc] {
+			if sc := vw.w.walkCallee(c); sc != nil && vw.in[sc] {
 				out = append(out, c)
 			}
 		}
@@ -164,7 +164,7 @@ func (vw *valueWalk) entryKinds(fn *ssa.Function) []string {
 	sites := 0
 	for _, g := range vw.fns {
 		for _, c := range vw.walkCalls(g) {
-			if c.Call.StaticCallee() != fn {
+			if vw.w.walkCallee(c) != fn {
 				continue
 			}
 			sites++
@@ -212,7 +212,7 @@ func (vw *valueWalk) invocations(fn *ssa.Function) []int {
 		acc := []int{0}
 		for _, c := range vw.walkCallsIn(b) {
 			var next []int
-			for _, k := range vw.invocations(c.Call.StaticCallee()) {
+			for _, k := range vw.invocations(vw.w.walkCallee(c)) {
 				for _, a := range acc {
 					if k < 0 || a < 0 {
 						next = append(next, -1)
